@@ -682,11 +682,109 @@ fn clone_independence(ctx: &mut Ctx) {
     });
 }
 
+/// Trait implementations of the value types that the other streams do not reach (found with
+/// tools/coverage.sh): comparisons / conversions in both directions for every instantiation of
+/// the integer / string attribute macros, Cookie, StunError, and the `expect_*` accessors on the
+/// MATCHING kind (documented to panic on a mismatch only).
+fn trait_impls(ctx: &mut Ctx) {
+    let n = ctx.n(20_000, 2_000_000);
+    ctx.cases("trait-impls", n, |ctx, _case, rng| {
+        let (u, v, w) = (rng.next_u64(), rng.next_u32(), rng.next_u32() as u16);
+        call(ctx, "integer attribute traits", |d| {
+            *d = format!("{} {} {}", u, v, w);
+            let a = IceControlling::new(u);
+            let _ = (a == u, u == a, a < u, u < a, a.partial_cmp(&u), u.partial_cmp(&a), *AsRef::<u64>::as_ref(&a), IceControlling::from(u) == a, a.clone() < a, render(&a));
+            let c = IceControlled::from(u);
+            let _ = (c.partial_cmp(&u), u.partial_cmp(&c), *AsRef::<u64>::as_ref(&c));
+            let p = Priority::new(v);
+            let _ = (p == v, v == p, p < v, v < p, p.partial_cmp(&v), v.partial_cmp(&p), *AsRef::<u32>::as_ref(&p), Priority::from(v) == p, render(&p));
+            let l = LifeTime::new(v);
+            let _ = (l == v, v == l, l < v, v < l, l.partial_cmp(&v), v.partial_cmp(&l), *AsRef::<u32>::as_ref(&l), LifeTime::from(v) == l, render(&l));
+            let r = ResponsePort::new(w);
+            let _ = (r == w, w == r, r < w, w < r, r.partial_cmp(&w), w.partial_cmp(&r), *AsRef::<u16>::as_ref(&r), ResponsePort::from(w) == r, r.as_u16(), render(&r));
+            let ck = stun_rs::MAGIC_COOKIE;
+            let arr = v.to_be_bytes();
+            let _ = (ck == v, v == ck, ck == arr, ck == &arr, arr == ck, &arr == ck, *AsRef::<u32>::as_ref(&ck), render(&ck));
+        });
+        let s = hostile_string(rng, 300);
+        call(ctx, "string attribute traits", |d| {
+            *d = format!("{:?}", s);
+            let owned: String = s.clone();
+            if let Ok(x) = Padding::new(s.as_str()) {
+                let _ = (x.as_str().len(), x == s.as_str(), s.as_str() == x, x == owned, owned == x, x == *s.as_str(), render(&x));
+                let a: &str = x.as_ref();
+                let b: &String = x.as_ref();
+                let _ = (a.len(), b.len(), x.clone() == x);
+                let _ = StunAttribute::from(x).attribute_type();
+            }
+            let _ = (Padding::new(&owned).is_ok(), Padding::new(owned.clone()).is_ok());
+            let _ = (Padding::try_from(s.as_str()).is_ok(), Padding::try_from(&owned).is_ok(), Padding::try_from(owned.clone()).is_ok());
+            if let Ok(x) = UserName::new(&s) {
+                let _ = (x == *s.as_str(), x.clone() == x);
+            }
+            if let Ok(x) = Nonce::new(&s) {
+                let _ = (x == *s.as_str(), x.clone() == x);
+            }
+            if let Ok(x) = Realm::new(&s) {
+                let _ = (x == *s.as_str(), x.clone() == x);
+            }
+        });
+        call(ctx, "error value traits", |d| {
+            *d = format!("{:?}", s);
+            // errors are value types handed to the caller: comparing / printing them must not panic
+            let e1 = UserName::new("").err();
+            let e2 = Realm::new(&s).err();
+            let e3 = stun_rs::ErrorCode::new(w, &s).err();
+            let e4 = MessageMethod::try_from(w).err();
+            let all: Vec<stun_rs::StunError> = [e1, e2, e3, e4].into_iter().flatten().collect();
+            for a in &all {
+                for b in &all {
+                    let _ = (a == b, *a == stun_rs::StunErrorType::InvalidParam, stun_rs::StunErrorType::InvalidParam == *a);
+                }
+                let _ = (a.to_string().len(), render(a).len(), std::error::Error::source(a).is_some());
+            }
+            let e: stun_rs::StunError = u8::try_from(300u16).unwrap_err().into();
+            let _ = (e.to_string(), std::error::Error::source(&e).is_some());
+        });
+        let attrs = all_kinds(rng);
+        for a in &attrs {
+            call(ctx, "StunAttribute::expect_* (matching kind)", |d| {
+                *d = format!("{:?}", a.attribute_type());
+                let mut hits = 0;
+                macro_rules! probe {
+                    ($($is:ident $ex:ident),*) => { $( if a.$is() { hits += 1; let _ = render(a.$ex()); } )* };
+                }
+                probe!(
+                    is_alternate_server expect_alternate_server, is_error_code expect_error_code,
+                    is_fingerprint expect_fingerprint, is_mapped_address expect_mapped_address,
+                    is_message_integrity expect_message_integrity, is_message_integrity_sha256 expect_message_integrity_sha256,
+                    is_nonce expect_nonce, is_password_algorithm expect_password_algorithm,
+                    is_password_algorithms expect_password_algorithms, is_realm expect_realm, is_software expect_software,
+                    is_unknown_attributes expect_unknown_attributes, is_user_hash expect_user_hash, is_user_name expect_user_name,
+                    is_xor_mapped_address expect_xor_mapped_address, is_ice_controlled expect_ice_controlled,
+                    is_ice_controlling expect_ice_controlling, is_priority expect_priority, is_use_candidate expect_use_candidate,
+                    is_channel_number expect_channel_number, is_life_time expect_life_time, is_xor_peer_address expect_xor_peer_address,
+                    is_xor_relayed_address expect_xor_relayed_address, is_data expect_data,
+                    is_requested_address_family expect_requested_address_family, is_even_port expect_even_port,
+                    is_dont_fragment expect_dont_fragment, is_requested_trasport expect_requested_trasport,
+                    is_additional_address_family expect_additional_address_family, is_reservation_token expect_reservation_token,
+                    is_address_error_code expect_address_error_code, is_icmp expect_icmp, is_mobility_ticket expect_mobility_ticket,
+                    is_change_request expect_change_request, is_other_address expect_other_address, is_padding expect_padding,
+                    is_response_origin expect_response_origin, is_response_port expect_response_port
+                );
+                assert!(hits == 1, "exactly one is_* accessor must answer true");
+            });
+        }
+        ctx.eval(Some(u ^ v as u64));
+    });
+}
+
 pub fn run(ctx: &mut Ctx) {
     ctx.track_every_case = false;
     small_domains(ctx);
     strings(ctx);
     sockaddr_and_numbers(ctx);
     enum_accessors(ctx);
+    trait_impls(ctx);
     clone_independence(ctx);
 }
